@@ -161,7 +161,7 @@ func gen(seed uint64, tier string) Scenario {
 		// connection stalls); hash-derived so that no other choice moves
 		for i := range sc.Peers {
 			p := &sc.Peers[i]
-			if x := core.HS(seed, "c13.pubstall", "", uint64(i)); p.Role == "publish" && (p.Transport == "tcp" || p.Transport == "http") && x%100 < 50 {
+			if x := core.HS(seed, "c13.pubstall", "", uint64(i)); p.Role == "publish" && ((p.Transport == "tcp" && x%100 < 50) || (p.Transport == "http" && x%100 < 85)) {
 				p.StallAtUS = p.StartUS + int((x>>8)%uint64(sc.DurUS/2+1))
 				p.StallUS = []int{100000, 1000000, 30000000}[(x>>40)%3]
 			}
